@@ -173,6 +173,141 @@ func init() {
 					}
 				}
 			})
+			// bounded-exhaustive small lists: every list of at most 3 pairs over names {a,b} x values {1,2}, every single operation and
+			// every pair of operations, against an independent statement of the standard's list semantics (and the model)
+			{
+				var lists [][][2]string
+				var gen func(cur [][2]string, n int)
+				gen = func(cur [][2]string, n int) {
+					lists = append(lists, append([][2]string(nil), cur...))
+					if n == 0 {
+						return
+					}
+					for _, nm := range []string{"a", "b"} {
+						for _, v := range []string{"1", "2"} {
+							gen(append(cur, [2]string{nm, v}), n-1)
+						}
+					}
+				}
+				gen(nil, 3)
+				var one []Op
+				for _, nm := range []string{"a", "b"} {
+					for _, v := range []string{"1", "2"} {
+						one = append(one, Op{K: "a", A: nm, B: v}, Op{K: "t", A: nm, B: v})
+					}
+					one = append(one, Op{K: "d", A: nm}, Op{K: "q", A: nm})
+				}
+				one = append(one, Op{K: "t", A: "c", B: "1"}, Op{K: "d", A: "c"}, Op{K: "o"}, Op{K: "O"})
+				var seqs [][]Op
+				for _, a := range one {
+					seqs = append(seqs, []Op{a})
+					for _, b := range one {
+						seqs = append(seqs, []Op{a, b})
+					}
+				}
+				c.Pool.Run(len(lists), func(d *Driver, li int) {
+					l := lists[li]
+					var qs []string
+					for _, p := range l {
+						qs = append(qs, p[0]+"="+p[1])
+					}
+					in := "http://h/?" + strings.Join(qs, "&")
+					for si, seq := range seqs {
+						u, err := url.Parse(in)
+						if err != nil {
+							return
+						}
+						sp := u.SearchParams()
+						ref := append([][2]string(nil), l...)
+						var done []string
+						for _, o := range seq {
+							done = append(done, o.String())
+							cs := Case{Kind: "hist", Input: in, Ops: append([]string(nil), done...), Family: "small-lists-exhaustive", Index: li*len(seqs) + si}
+							switch o.K {
+							case "a":
+								sp.Append(o.A, o.B)
+								ref = append(ref, [2]string{o.A, o.B})
+							case "d":
+								sp.Delete(o.A)
+								var nr [][2]string
+								for _, p := range ref {
+									if p[0] != o.A {
+										nr = append(nr, p)
+									}
+								}
+								ref = nr
+							case "t":
+								sp.Set(o.A, o.B)
+								var nr [][2]string
+								seen := false
+								for _, p := range ref {
+									if p[0] != o.A {
+										nr = append(nr, p)
+									} else if !seen {
+										seen = true
+										nr = append(nr, [2]string{o.A, o.B})
+									}
+								}
+								if !seen {
+									nr = append(nr, [2]string{o.A, o.B})
+								}
+								ref = nr
+							case "o", "O":
+								var flat []string
+								for _, p := range ref {
+									flat = append(flat, p[0], p[1])
+								}
+								flat = sortedPairsBy(flat, o.K == "O")
+								ref = nil
+								for k := 0; k+1 < len(flat); k += 2 {
+									ref = append(ref, [2]string{flat[k], flat[k+1]})
+								}
+								if o.K == "O" {
+									sp.SortAbsolute()
+								} else {
+									sp.Sort()
+								}
+							case "q":
+								var all []string
+								for _, p := range ref {
+									if p[0] == o.A {
+										all = append(all, p[1])
+									}
+								}
+								first := ""
+								if len(all) > 0 {
+									first = all[0]
+								}
+								if g := sp.Get(o.A); g != first || sp.Has(o.A) != (len(all) > 0) || strings.Join(sp.GetAll(o.A), "\x00") != strings.Join(all, "\x00") {
+									c.Report(Finding{Class: "violation", What: fmt.Sprintf("Get/Has/GetAll(%q) = %q/%v/%q on the list %v", o.A, g, sp.Has(o.A), sp.GetAll(o.A), ref), Case: cs})
+								}
+							}
+							var flat []string
+							for _, p := range ref {
+								flat = append(flat, p[0], p[1])
+							}
+							if got := url.VerifSearchParamsPairs(sp); strings.Join(got, "\x00") != strings.Join(flat, "\x00") {
+								c.Report(Finding{Class: "violation", What: fmt.Sprintf("after %s the list is %q, the standard's list operation gives %q", o.String(), got, flat), Case: cs})
+								break
+							}
+							if want := func() string {
+								var ps []string
+								for _, p := range ref {
+									ps = append(ps, p[0]+"="+p[1])
+								}
+								return strings.Join(ps, "&")
+							}(); o.K != "q" && u.Query() != want {
+								c.Report(Finding{Class: "violation", What: fmt.Sprintf("after %s the URL's query is %q, the list serializes to %q", o.String(), u.Query(), want), Case: cs})
+								break
+							}
+						}
+						c.Count(fmt.Sprintf("small\x00%d\x00%d", li, si), true, "small-lists-exhaustive")
+						if len(seq) == 2 && (li+si)%7 == 0 {
+							c.cmpHist(d, defaultCfg, nil, in, seq, allButVerrs, "small-lists-exhaustive", li*len(seqs)+si)
+						}
+					}
+				})
+			}
 			// parsing of arbitrary queries and round trip of arbitrary lists
 			c.Pool.Run(15000*c.Scale, func(d *Driver, i int) {
 				r := rng.Fork(i)
